@@ -28,6 +28,12 @@ var uniqRe = regexp.MustCompile(`-u[0-9a-f]{10}`)
 // the oldest pending job) and returns what C10 says is deterministic: the
 // directory listing (attempt ids normalised) and every fork's _invocation.
 func fifoRun(prog *mrogen.Program, src, dir string) (map[string]string, error) {
+	return fifoRunPrefer(prog, src, dir, "")
+}
+
+// fifoRunPrefer: as fifoRun, but a pending job whose name contains prefer
+// finishes before the others.
+func fifoRunPrefer(prog *mrogen.Program, src, dir, prefer string) (map[string]string, error) {
 	sim, err := simrun.New(prog, src, dir, simrun.Options{StageOpts: stagefn.Opts{}})
 	if err != nil {
 		return nil, err
@@ -44,7 +50,14 @@ func fifoRun(prog *mrogen.Program, src, dir string) (map[string]string, error) {
 		}
 		sim.Step()
 		if p := sim.Pending(); len(p) > 0 {
-			if err := sim.Finish(p[0]); err != nil {
+			next := p[0]
+			for _, j := range p {
+				if prefer != "" && strings.Contains(j.String(), prefer) {
+					next = j
+					break
+				}
+			}
+			if err := sim.Finish(next); err != nil {
 				return nil, err
 			}
 		}
@@ -58,13 +71,34 @@ func fifoRun(prog *mrogen.Program, src, dir string) (map[string]string, error) {
 		b, _ := json.MarshalIndent(v, "", " ")
 		return uniqRe.ReplaceAllString(strings.ReplaceAll(string(b), filepath.Dir(sim.Dir), "<DIR>"), "-uX")
 	}
-	st1 := sim.PS.SerializeState(context.Background())
+	// known finding C10/nondeterministic-run:forks-of-disabled-map-call: how
+	// many forks a disabled map call has depends on the completion order of
+	// its producers; while that is listed, such forks are left out of what is
+	// compared (the reproducer looks at everything)
+	skipDisabled := !c10Raw && stats.Known("C10/nondeterministic-run:forks-of-disabled-map-call")
+	dropDisabled := func(nodes []*core.NodeInfo) []*core.NodeInfo {
+		if !skipDisabled {
+			return nodes
+		}
+		var r []*core.NodeInfo
+		for _, n := range nodes {
+			if n.State == core.DisabledState {
+				c := *n
+				c.Forks = nil
+				n = &c
+				stats.Count("C10", "excluded_known:forks-of-disabled-node", 1)
+			}
+			r = append(r, n)
+		}
+		return r
+	}
+	st1 := dropDisabled(sim.PS.SerializeState(context.Background()))
 	res["state"] = norm(st1)
 	res["forkorder"] = forkOrder(st1)
 	if st := sim.State(); st == core.Complete || st == core.DisabledState {
 		sim.Close()
 		if re, err := simrun.Reattach(sim); err == nil {
-			st2 := re.PS.SerializeState(context.Background())
+			st2 := dropDisabled(re.PS.SerializeState(context.Background()))
 			res["state-reattached"] = norm(st2)
 			res["forkorder-reattached"] = forkOrder(st2)
 			sim = re
@@ -90,6 +124,38 @@ func fifoRun(prog *mrogen.Program, src, dir string) (map[string]string, error) {
 		return nil
 	})
 	sort.Strings(listing)
+	if skipDisabled {
+		// a fork directory that holds _disabled, and everything below it
+		var gone []string
+		for _, rel := range listing {
+			if filepath.Base(rel) == "_disabled" {
+				gone = append(gone, filepath.Dir(rel))
+			}
+		}
+		kept := listing[:0]
+		for _, rel := range listing {
+			drop := false
+			for _, g := range gone {
+				if rel == g || strings.HasPrefix(rel, g+"/") {
+					drop = true
+					break
+				}
+			}
+			if !drop {
+				kept = append(kept, rel)
+			}
+		}
+		listing = kept
+		for k := range res {
+			if strings.HasPrefix(k, "invocation:") {
+				for _, g := range gone {
+					if strings.HasPrefix(strings.TrimPrefix(k, "invocation:"), g+"/") {
+						delete(res, k)
+					}
+				}
+			}
+		}
+	}
 	res["listing"] = strings.Join(listing, "\n")
 	return res, nil
 }
@@ -119,6 +185,9 @@ func forkOrder(nodes []*core.NodeInfo) string {
 }
 
 var c10Seq int
+
+// c10Raw: compare everything (set by the reproducer of a known finding).
+var c10Raw bool
 
 // TestC10Run: fork identifiers (directory names) and recorded per-fork
 // invocations of the same program are identical across runs.
@@ -184,4 +253,52 @@ func firstDiffStr(a, b string) string {
 		hb = len(b)
 	}
 	return fmt.Sprintf("...%s\n   vs\n...%s", a[lo:ha], b[lo:hb])
+}
+
+// Reproducer of C10/nondeterministic-run:forks-of-disabled-map-call: a map
+// call that is disabled by a constant flag, splits over the output of one
+// stage and takes another argument from a second stage; whichever of the two
+// finishes first decides whether the disabled call gets one fork directory
+// per element or a single one.
+func TestKnownC10DisabledMapCallForks(t *testing.T) {
+	root := workRoot(t)
+	p := &mrogen.Program{U: &mrogen.Universe{Structs: []*mrogen.Struct{{Name: "S0", Fields: []mrogen.Field{{Name: "f", T: tInt}}}}}}
+	p.Stages = []*mrogen.Stage{
+		st("GEN", []mrogen.Param{pm("p", tInt)}, []mrogen.Param{{Name: "xs", T: tIntArr, NonEmpty: true}}),
+		st("OTHER", []mrogen.Param{pm("p", tInt)}, []mrogen.Param{pm("o", tInt)}),
+		st("EACH", []mrogen.Param{pm("x", tInt), pm("y", tInt)}, []mrogen.Param{pm("o", tInt)}),
+	}
+	top := &mrogen.Pipeline{Name: "TOP", Ins: []mrogen.Param{pm("n", tInt), {Name: "off", T: tBool, Flag: true}}, Outs: []mrogen.Param{pm("r", tIntArr)},
+		Calls: []*mrogen.Call{
+			{Id: "OTHER", Callee: "OTHER", Bindings: []mrogen.Binding{{Param: "p", E: self("n")}}},
+			{Id: "GEN", Callee: "GEN", Bindings: []mrogen.Binding{{Param: "p", E: self("n")}}},
+			{Id: "EACH", Callee: "EACH", Mapped: true, Disabled: &mrogen.Ref{Out: "off"}, Bindings: []mrogen.Binding{
+				{Param: "x", E: mrogen.Split{E: out("GEN", "xs")}}, {Param: "y", E: out("OTHER", "o")}}},
+		},
+		Ret: []mrogen.Binding{{Param: "r", E: out("EACH", "o")}}}
+	p.Pipelines = []*mrogen.Pipeline{top}
+	listings := map[string]bool{}
+	c10Raw = true
+	defer func() { c10Raw = false }()
+	for n := 1; n <= 6; n++ {
+		p.Top = &mrogen.Call{Id: "TOP", Callee: "TOP", Bindings: []mrogen.Binding{{Param: "n", E: lit(num(n), tInt)}, {Param: "off", E: lit(true, tBool)}}}
+		src := p.Source(nil)
+		per := map[string]bool{}
+		for _, first := range []string{"GEN", "OTHER"} {
+			c10Seq++
+			dir := filepath.Join(root, fmt.Sprintf("c10k-%d-%d", os.Getpid(), c10Seq))
+			got, err := fifoRunPrefer(p, src, dir, first)
+			os.RemoveAll(dir)
+			if err != nil {
+				t.Fatalf("INFRA: %v\n%s", err, src)
+			}
+			per[got["listing"]] = true
+		}
+		if len(per) > 1 {
+			listings[fmt.Sprint(n)] = true
+		}
+	}
+	if len(listings) > 0 {
+		fmt.Printf("KNOWN-PRESENT C10/nondeterministic-run:forks-of-disabled-map-call: the fork directories of a map call disabled by a constant flag depend on which of its two producers finishes first (%d of 6 inputs)\n", len(listings))
+	}
 }
